@@ -18,8 +18,14 @@ const RP: &str = "example.com";
 
 #[derive(Clone, Debug, PartialEq, Serialize, Deserialize)]
 pub enum Act {
-    /// assertion with the i-th stored credential (allow list names it), optional PRF request
-    Assert { cred: usize, ext: bool },
+    /// assertion with the i-th stored credential (allow list names it), optional PRF request;
+    /// `silent`: up = uv = false and the user-validation step reports neither presence nor verification
+    Assert {
+        cred: usize,
+        ext: bool,
+        #[serde(default)]
+        silent: bool,
+    },
     Register { counter: bool },
 }
 
@@ -54,15 +60,17 @@ fn counters(store: &Shared<RefStore>) -> Vec<Option<u32>> {
 fn apply(store: &Shared<RefStore>, act: &Act, case: &dyn Fn() -> Value, fs: &mut Vec<Finding>, outcome: &mut String) {
     let log = Log::new();
     let before = store.0.lock().unwrap().recs_ordered();
-    let mut auth = Authenticator::new(Aaguid::new_empty(), Logging { inner: store.clone(), log: log.clone() }, ScriptedUv::consenting(log.clone())).hmac_secret(HmacSecretConfig::new_without_uv());
+    let silent = matches!(act, Act::Assert { silent: true, .. });
+    let uvm = if silent { ScriptedUv::consenting(log.clone()).outcome(UvOutcome::Ok { presence: false, verification: false }) } else { ScriptedUv::consenting(log.clone()) };
+    let mut auth = Authenticator::new(Aaguid::new_empty(), Logging { inner: store.clone(), log: log.clone() }, uvm).hmac_secret(HmacSecretConfig::new_without_uv());
     match act {
-        Act::Assert { cred, ext } => {
+        Act::Assert { cred, ext, silent } => {
             let Some(target) = before.get(*cred).cloned() else {
                 *outcome = "assert:no-such-cred".into();
                 return;
             };
             let exts = ext.then(|| get_assertion::ExtensionInputs { hmac_secret: None, prf: Some(AuthenticatorPrfInputs { eval: Some(AuthenticatorPrfValues { first: [7; 32], second: None }), eval_by_credential: None }) });
-            let req = ga_request(RP, Some(vec![target.id.clone()]), false, true, true, false, exts);
+            let req = ga_request(RP, Some(vec![target.id.clone()]), false, !*silent, !*silent, false, exts);
             let r = par::catch(|| block_on(auth.get_assertion(req)));
             let after = store.0.lock().unwrap().recs_ordered();
             let stored_after = after.iter().find(|r| r.id == target.id).and_then(|r| r.counter);
@@ -174,8 +182,10 @@ impl Sys for C08 {
         let mut v = vec![];
         for cred in 0..snap.len().min(5) {
             for ext in [false, true] {
-                v.push(Act::Assert { cred, ext });
+                v.push(Act::Assert { cred, ext, silent: false });
             }
+            v.push(Act::Assert { cred, ext: false, silent: true });
+            v.push(Act::Assert { cred, ext: true, silent: true });
         }
         if snap.len() < 5 {
             v.push(Act::Register { counter: true });
@@ -216,7 +226,7 @@ pub fn run(ctx: &Ctx) -> Result<Run, String> {
     let out = graph::bfs(&C08 { depth }, ctx.threads);
     let mut run = Run::from_stats(
         "model_checking",
-        "level-synchronous explicit-state BFS over the real get_assertion/make_credential: 49 start vectors (two credentials with each of 7 start counters incl. 0, 2^31-1, 2^31, 2^32-2, 2^32-1 and none, one counter-less credential), actions assert(cred i, PRF on/off) and register(counter on/off), states deduplicated per start vector on the counter vector; every transition is a distinct non-trivial case (a real ceremony on a rebuilt store)",
+        "level-synchronous explicit-state BFS over the real get_assertion/make_credential: 49 start vectors (two credentials with each of 7 start counters incl. 0, 2^31-1, 2^31, 2^32-2, 2^32-1 and none, one counter-less credential), actions assert(cred i, PRF on/off, with consent / silent: up=uv=false and nothing reported) and register(counter on/off), states deduplicated per start vector on the counter vector; every transition is a distinct non-trivial case (a real ceremony on a rebuilt store)",
         true,
         out.stats,
     );
